@@ -29,7 +29,9 @@ SplitName(i) == IF Valid(i) THEN LowerOf(LastSeg(i)) ELSE ""
 SameIRI(a, b) == Equiv(a, b, TRUE)
 
 \* the helper rule: explicit property wins, else the built IRI
-OfRule(id, c, explicit) == IF explicit.k = "none" THEN Join(id, c) ELSE explicit.iri
+\* (a nil pointer or an empty IRI in the property is as good as no property)
+Absent(explicit) == explicit.k \in {"none", "nil-pointer", "empty-iri"}
+OfRule(id, c, explicit) == IF Absent(explicit) THEN Join(id, c) ELSE explicit.iri
 
 \* which Go value kinds carry which collection properties
 HasProp(kind, c) == (kind = "actor" /\ c \in Names) \/ (kind = "object" /\ c \in ObjectNames)
